@@ -180,6 +180,20 @@ func checkC04(w *Worker) {
 		x.Case(num, true)
 		check(x, f, text, "long-numbers")
 	})
+	// A3: every possible last and first byte of a multi-byte letter at the ends of a name (the tokenizer trims bytes, the
+	// names are UTF-8): three blocks of 64 letters whose encodings end in 0x80..0xBF, at the end, at the start, alone
+	w.Explore("utf8-letters-at-the-ends-of-names", ExploreOpts{ShardDepth: 3, Budgets: map[string]int{"layout": 1}}, func(x *Exec) {
+		base := []rune{0x0400, 0x00C0, 0x30C0}[x.Choose(3, "input:block")]
+		k := x.Choose(64, "input:letter")
+		pos := x.Choose(3, "input:position")
+		ch := string(base + rune(k))
+		name := []string{"ab" + ch, ch + "ab", ch}[pos]
+		f := absFile{{Header: name, Items: []absItem{{Name: name, NumText: "1.5"}, {Name: "x " + name, NumText: "2"}, {IsNote: true, Name: name, NoteText: "note " + ch}}},
+			{Header: "rec " + name, Items: []absItem{{Name: name + "/" + name, NumText: "-1"}}}}
+		text, _ := renderFile(x, f, renderOpts{})
+		x.Case(text, true)
+		check(x, f, text, "utf8-ends")
+	})
 	// B: every file that departs from the default layout in at most dev places
 	layoutBody := func(r, e int) func(x *Exec) {
 		return func(x *Exec) {
